@@ -359,7 +359,7 @@ def rule_c17_getters(prog: Program, col: Collector) -> None:
             arr, mask, val = e.args[0], e.args[1], e.args[2]
             on_copy = any(is_call_to(s, "numpy.copy", "numpy.array") or (s[0] == "call" and s[1][0] == "attr" and s[1][2] == "copy")
                           for s in subterms(arr))
-            inv = is_call_to(mask, "numpy.invert", "numpy.logical_not") and any(
+            inv = mask[0] == "un" and mask[1] == "~" and any(        # np.invert(m) / np.logical_not(m) are recorded as ~m
                 s[0] == "call" and s[1] == ("attr", SELF, "are_values_known") for s in subterms(mask))
             nanv = val == ("const", None) or is_global(val, "numpy.nan") or val == ("call", ("global", "float"), (("const", "nan"),), ())
             okp = on_copy and inv and nanv
